@@ -854,7 +854,7 @@ void a_complex_acosh_(a_complex *ctx)
 #elif defined(A_HAVE_CACOSH)
     *ctx = A_REAL_F(cacosh)(*ctx);
 #else /* !A_HAVE_CACOSH */
-    a_complex_acsc_(ctx);
+    a_complex_acos_(ctx);
     a_complex_mul_imag_(ctx, ctx->imag > 0 ? -1 : +1);
 #endif /* A_HAVE_CACOSH */
 }
